@@ -1,28 +1,30 @@
 """C40 -- disassembly and analysis agree on instruction offsets.
 
-Rule (symbolic path execution with linear forms, agstatic/xref_engine.py):
-(1) provenance: the offset component of every xref record made by `_create_xref`
-(15 recording sites, recorders inlined to the primitive `set.add`) is the first loop
-variable of current_method.get_instructions_idx(); `_create_basic_block` passes the
-(instruction, offset) pair of one step of that generator to determineNext; the
-generator, DCode.get_ins_off, DCode.off_to_pos and DEXBasicBlock.get_instructions all
-use the same accumulator off(0)=0, off(n+1)=off(n)+length(ins n) and expose/compare the
-offset *before* the increment; DEXBasicBlock.push advances the block end by the length
-of the pushed instruction.  (2) units: in determineNext and push every 16-bit code-unit
-value (get_ref_off(), elements of get_targets()) enters a byte offset with coefficient
-exactly 2, byte values with coefficient 1.  (3) payload: the payload of
-fill-array-data/packed-switch/sparse-switch is looked up in the code of the same method
-at the affine address insn_offset + 2*ref_off in BOTH DEXBasicBlock.push and
-determineNext (sibling agreement), exactly for the opcodes that carry a payload offset,
-the link is stored under the instruction's own offset, and get_targets() is only called
-after isinstance(payload, PackedSwitch|SparseSwitch) holds on the path.
+(1) provenance (symbolic path execution, agstatic/xref_engine.py): the offset component of every xref record made by
+`_create_xref` (15 recording sites, recorders inlined to the primitive `set.add`) is the first loop variable of
+current_method.get_instructions_idx(); `_create_basic_block` passes the (instruction, offset) pair of one step of that
+generator to determineNext.
+(2)-(4) disassembler side (agstatic/offset_model.py): the functions are *executed abstractly* by the shared interpreter
+on a model -- three instructions of symbolic byte lengths (>= 2), symbolic instruction offset C, branch offset R, switch
+targets T -- and judged by the values they compute, never by the shape of their code (helpers, generators, comprehensions,
+lookup tables are simply executed):  DCode.off_to_pos / get_ins_off return position k / instruction k exactly at the
+prefix sums of get_length() and -1 / None for an address inside an instruction, behind the end or negative;
+get_instructions_idx yields (prefix sum, instruction); DEXBasicBlock.get_instructions selects by the same offsets; push
+advances the block end by the pushed length.  Payload: for every opcode, the address handed to
+method.get_code().get_bc().get_ins_off() in DEXBasicBlock.push and determineNext is exactly C + 2*R, the link is stored
+under C, every returned offset / address has coefficient 2 on code-unit values and 1 on byte values, and get_targets()
+is never reached when the address holds None or an instruction that is not a PackedSwitch/SparseSwitch.  End to end:
+after MethodAnalysis._create_basic_block on a model method [fill-array-data, fill-array-data, payload, return-void]
+whose two fill-array-data instructions encode the same payload offset, get_special_ins() of both is that payload.
+A VIOLATION is only reported for a positively computed value that differs from the specification; what the interpreter
+cannot evaluate is an analysis error (exit 2).
 """
 from __future__ import annotations
 
 from ..model import ANALYSIS, DEX
 from ..model import AnalysisError
 from ..offset_model import rule_offset_functions, rule_payload_model, rule_payload_links_model
-from ..xref_engine import (Engine, XrefModel, Collector, Mut, rule_fact_offsets, rule_accumulators, rule_payload, rule_basic_block_offsets,
+from ..xref_engine import (Engine, XrefModel, Collector, Mut, rule_fact_offsets, rule_basic_block_offsets,
                            run_mutants, m_swap_args, m_set_arg, m_set_receiver, m_rename_call, m_delete_call, m_const, m_replace_src, b_rename_local)
 
 # the thorough tier runs its own in-memory mutation adequacy (MUTANTS / BENIGN below, via xref_engine.run_mutants)
@@ -112,9 +114,6 @@ def _widen(ctx):
                     fn = getattr(fn, "_parent", None)
                 qn = fn.name if fn is not None else "<module>"
                 ctx.ob("units", "%s:%s `%s`" % (rel, qn, ast.unparse(top)), coef == 2, "coefficient of get_ref_off() = %s" % coef)
-                if coef != 2:
-                    ctx.finding("units", qn, "%s: %s" % (qn, ast.unparse(top)),
-                                "%s: get_ref_off() enters `%s` with coefficient %s; code units must be doubled exactly once" % (rel, ast.unparse(top), coef), node=top, file=rel)
     ctx.count("ref_off_arithmetic_sites", n)
     ctx.floor("ref_off_arithmetic_sites", 4)
 
